@@ -200,6 +200,8 @@ pub struct ProcInfo {
     pub cwd: String,
     pub umask: u32,
     pub fds: BTreeMap<i32, FdInfo>,
+    /// dispositions of HUP INT QUIT TERM USR1 USR2 CHLD as installed in the simulated process
+    pub dispositions: Vec<(String, String)>,
 }
 
 pub struct RunResult {
@@ -251,6 +253,11 @@ pub fn proc_info(state: &SystemState, pid: i32) -> Option<ProcInfo> {
         );
     }
     let umask = 0; // filled in by `proc_info_full` (needs a system handle)
+    use yash_env::system::r#virtual as v;
+    let dispositions = [("HUP", v::SIGHUP), ("INT", v::SIGINT), ("QUIT", v::SIGQUIT), ("TERM", v::SIGTERM), ("USR1", v::SIGUSR1), ("USR2", v::SIGUSR2), ("CHLD", v::SIGCHLD)]
+        .iter()
+        .map(|(n, s)| (n.to_string(), format!("{:?}", p.disposition(*s))))
+        .collect();
     Some(ProcInfo {
         pid,
         ppid: p.ppid().0,
@@ -260,6 +267,7 @@ pub fn proc_info(state: &SystemState, pid: i32) -> Option<ProcInfo> {
         cwd: p.getcwd().to_string_lossy().into_owned(),
         umask,
         fds,
+        dispositions,
     })
 }
 
